@@ -159,3 +159,46 @@ theorem run_inv (s : St) (ops : List Op) (h : UInv s) : UInv (ops.foldl (fun s o
   | cons op t ih => exact ih _ (step_inv s op h)
 
 end Defra.IndexMulti
+
+namespace Defra.IndexMulti
+open Defra Defra.Query
+
+/-! ### every document has an entry in every index -/
+
+theorem dedupV_ne_nil : ∀ (l : List V), l ≠ [] → dedupV l ≠ []
+  | [], h => absurd rfl h
+  | x :: xs, _ => by
+    unfold dedupV
+    split
+    · rename_i hc
+      intro he
+      rw [he] at hc
+      simp at hc
+    · simp
+
+theorem fieldVals_ne_nil (d : MDoc) (f : String) : fieldVals d f ≠ [] := by
+  unfold fieldVals
+  split
+  · split
+    · simp
+    · rename_i l _
+      split
+      · simp
+      · rename_i hne
+        exact dedupV_ne_nil l (by intro h; apply hne; rw [h]; rfl)
+  · simp
+
+theorem keysOf_ne_nil (d : MDoc) : ∀ (fs : List String), keysOf d fs ≠ []
+  | [] => by simp [keysOf]
+  | f :: fs => by
+    unfold keysOf
+    have h1 := fieldVals_ne_nil d f
+    have h2 := keysOf_ne_nil d fs
+    cases hv : fieldVals d f with
+    | nil => exact absurd hv h1
+    | cons v vs =>
+      cases hk : keysOf d fs with
+      | nil => exact absurd hk h2
+      | cons k ks => simp [List.flatMap_cons, hk]
+
+end Defra.IndexMulti
